@@ -123,12 +123,14 @@ func New(config ...Config) fiber.Handler {
 		// TODO(allocation optimization): try to minimize the allocation from 2 to 1
 		key := cfg.KeyGenerator(c) + "_" + requestMethod
 
-		// Get entry from pool
-		e := manager.get(key)
 		verifYield("cache.afterGet")
 
 		// Lock entry
 		mux.Lock()
+
+		// Get entry from pool, under the lock: the heap index stored in the entry goes
+		// stale as soon as another request removes or replaces the entry
+		e := manager.get(key)
 
 		// Get timestamp
 		ts := atomic.LoadUint64(&timestamp)
